@@ -101,6 +101,16 @@ RetainNext == steps < MaxSteps /\
   \/ ApiPublish(<<"c">>, 1, TRUE, "w")
 RetainSpec == RetainInit /\ [][RetainNext]_vars
 
+\* all paths over one retained topic: the implementation keeps state the specification does not have
+\* (the stored message object, its QoS, its buffer), so one witness per transition is not enough
+Retain1Next == steps < MaxSteps /\
+  \/ \E q \in 0..1, pl \in {"x", "B", ""} : Publish(c1, <<"a">>, q, TRUE, pl, 4, FALSE)
+  \/ Publish2(c1, <<"a">>, TRUE, "z", 6, FALSE) \/ Pubrel(c1, 6)
+  \/ \E f \in {<<"a">>, <<"#">>}, q \in 0..2 : Subscribe(c2, 1, << <<f, q>> >>)
+  \/ Unsubscribe(c2, 3, << <<"a">>, <<"#">> >>)
+  \/ ApiSubscribe(L1, <<"a">>, 2) \/ ApiUnsubscribe(L1, <<"a">>)
+Retain1Spec == BothUp({<<"a">>}) /\ [][Retain1Next]_vars
+
 (* C09 wills: connect / end sequences on client id k1 (fresh and resumed sessions, changing
    will), witness c2 subscribed to '#'                                                     *)
 WNames == {<<"w">>, <<"v">>}
